@@ -249,6 +249,73 @@ func asmSplitOperands(s string) []string {
 	return out
 }
 
+var (
+	asmRegAmd64 = regexp.MustCompile(`\b([XY][0-9]+|[A-D]X|[SD]I|BP|R(?:8|9|1[0-5]))\b`)
+	asmRegArm64 = regexp.MustCompile(`\b([VRF][0-9]+)\b`)
+	asmWordRE   = regexp.MustCompile(`[A-Za-z_][A-Za-z0-9_]*`)
+)
+
+// asmCanonical makes the digest of a routine body insensitive to what cannot
+// change its behaviour: comments and blank lines (already removed), spacing,
+// label names (renamed L0, L1, ... in order of definition) and a consistent
+// renaming of registers (vector and general registers renamed in order of first
+// occurrence; X<n> and Y<n> share one name space).  Raw-encoded instructions
+// (LONG / WORD / BYTE) keep their bytes.
+func asmCanonical(norm string, arm bool) string {
+	lines := strings.Split(norm, "\n")
+	labels := map[string]string{}
+	for _, l := range lines {
+		if m := asmLabelRE.FindStringSubmatch(strings.TrimSpace(l)); m != nil {
+			if _, ok := labels[m[1]]; !ok {
+				labels[m[1]] = fmt.Sprintf("L%d", len(labels))
+			}
+		}
+	}
+	vec, gen := map[string]string{}, map[string]string{}
+	re := asmRegAmd64
+	if arm {
+		re = asmRegArm64
+	}
+	var out []string
+	for i, l := range lines {
+		if i == 0 || l == "" { // TEXT header (name, frame size) kept as is
+			out = append(out, l)
+			continue
+		}
+		raw := strings.HasPrefix(l, "LONG ") || strings.HasPrefix(l, "WORD ") || strings.HasPrefix(l, "BYTE ")
+		if !raw {
+			l = re.ReplaceAllStringFunc(l, func(r string) string {
+				switch {
+				case !arm && (r[0] == 'X' || r[0] == 'Y') && len(r) > 1 && r[1] >= '0' && r[1] <= '9':
+					k := r[1:]
+					if _, ok := vec[k]; !ok {
+						vec[k] = fmt.Sprintf("%d", len(vec))
+					}
+					return string(r[0]) + "#" + vec[k]
+				case arm && (r[0] == 'V' || r[0] == 'F'):
+					if _, ok := vec[r]; !ok {
+						vec[r] = fmt.Sprintf("%d", len(vec))
+					}
+					return string(r[0]) + "#" + vec[r]
+				default:
+					if _, ok := gen[r]; !ok {
+						gen[r] = fmt.Sprintf("%d", len(gen))
+					}
+					return "G#" + gen[r]
+				}
+			})
+		}
+		l = asmWordRE.ReplaceAllStringFunc(l, func(w string) string {
+			if c, ok := labels[w]; ok {
+				return c
+			}
+			return w
+		})
+		out = append(out, l)
+	}
+	return strings.Join(out, "\n")
+}
+
 func genAsmAmd64() (string, string) {
 	var files []string
 	for _, d := range []string{"internal/dsp", "internal/lossy"} {
@@ -435,14 +502,14 @@ func genAsmAmd64() (string, string) {
 		fmt.Fprintf(&b, " (\"%s\", %d, %d, %s)%s\n", coqString(d.sym), d.off, d.size, d.val, sep)
 	}
 	b.WriteString("].\n\n")
-	b.WriteString("(* (routine, sha256 of the normalised body: comments and blank lines removed, whitespace\n   collapsed) for every routine, amd64 and arm64 *)\n")
+	b.WriteString("(* (routine, sha256 of the canonical body: comments and blank lines removed, whitespace\n   collapsed, labels and registers renamed canonically) for every routine, amd64 and arm64 *)\n")
 	b.WriteString("Definition asm_digests : list (string * string) := [\n")
 	for i, r := range routines {
 		sep := ";"
 		if i == len(routines)-1 {
 			sep = ""
 		}
-		h := sha256.Sum256([]byte(r.norm))
+		h := sha256.Sum256([]byte(asmCanonical(r.norm, strings.HasSuffix(r.file, "_arm64.s"))))
 		fmt.Fprintf(&b, " (\"%s\", \"%s\")%s\n", r.name, hex.EncodeToString(h[:8]), sep)
 	}
 	b.WriteString("].\n\n")
